@@ -1972,7 +1972,8 @@ meta:
 
 				len = l->start + l->len - start;
 
-				if (char_is_line_ending(source[start + len])) {
+				if (len && char_is_line_ending(source[start + len - 1])) {
+					// Drop the line ending (if there is one -- the last line may end at end of input)
 					len--;
 				}
 
